@@ -203,6 +203,19 @@ def _join_parts(fn: ast.FunctionDef) -> t.Dict[str, t.Any]:
     if touching not in ([], [sync]):
         raise Untranslatable(OB + ".rightNameSynced", f"unsupported statements on other_df.expression: {touching}")
     d["synced"] = touching == [sync]
+    # new_df.display_name_mapping = {**X.display_name_mapping, **Y.display_name_mapping}: the later entry wins
+    ob_d = OB + ".joinDisplayOrder"
+    dm = [s_ for s_ in rest if isinstance(s_, ast.Assign) and ast.unparse(s_.targets[0]) == "new_df.display_name_mapping"]
+    if not dm:
+        d["displayOrder"] = ["Side.self"]
+    elif len(dm) == 1 and isinstance(dm[0].value, ast.Dict) and all(k is None for k in dm[0].value.keys):
+        srcs = [ast.unparse(v) for v in dm[0].value.values]
+        names = {"self.display_name_mapping": "Side.self", "other_df.display_name_mapping": "Side.other", "other.display_name_mapping": "Side.other"}
+        if any(x not in names for x in srcs) or len(set(srcs)) != len(srcs):
+            raise Untranslatable(ob_d, f"unsupported merge {srcs}")
+        d["displayOrder"] = [names[x] for x in reversed(srcs)]  # precedence: first wins
+    else:
+        raise Untranslatable(ob_d, "unsupported assignment to new_df.display_name_mapping")
     jx = [ast.unparse(v) for v in (_assign_to(s_, "join_expression") for s_ in rest) if v is not None]
     if jx[:1] != ["self._add_ctes_to_expression(self.expression, other_df.expression.ctes)"] or ast.unparse(_find_assign(rest, "other_df", OB + ".join")) != "other._convert_leaf_to_cte()":
         raise Untranslatable(OB + ".join", f"unsupported merge of the two sides: {jx[:1]}")
@@ -380,8 +393,18 @@ def _key_leftmost(fn: ast.FunctionDef) -> bool:
         v = _assign_to(s, "potential_ctes")
         if v is not None:
             pot = v
-    if pot is None or not isinstance(pot, ast.ListComp) or ast.unparse(pot.generators[0].iter) != "join_expression.ctes":
+    if pot is None or not isinstance(pot, ast.ListComp) or len(pot.generators) != 1:
         raise Untranslatable(ob, "potential_ctes is not a comprehension over join_expression.ctes")
+    it = ast.unparse(pot.generators[0].iter)
+    if it == "join_expression.ctes":
+        list_reversed = False
+    elif it in ("reversed(join_expression.ctes)", "join_expression.ctes[::-1]", "list(reversed(join_expression.ctes))"):
+        list_reversed = True
+    else:
+        raise Untranslatable(ob, f"potential_ctes iterates over {it!r}")
+    conds = [ast.unparse(c) for c in pot.generators[0].ifs]
+    if ast.unparse(pot.elt) != "cte" or conds != ["cte.alias_or_name in table_names and cte.alias_or_name != other_df.latest_cte_name"]:
+        raise Untranslatable(ob, f"unsupported candidate filter {conds}")
     for n in ast.walk(fn):
         if isinstance(n, ast.For) and ast.unparse(n.iter) == "potential_ctes":
             ifs = [s for s in n.body if isinstance(s, ast.If)]
@@ -396,10 +419,10 @@ def _key_leftmost(fn: ast.FunctionDef) -> bool:
                     raise Untranslatable(ob, f"unsupported key pairing {lc} / {rc}")
                 if not has_break:
                     raise Untranslatable(ob, "no break after the first matching CTE")
-                return True
+                return not list_reversed
             raise Untranslatable(ob, "unsupported loop body over potential_ctes")
         if isinstance(n, ast.For) and ast.unparse(n.iter) in ("reversed(potential_ctes)", "potential_ctes[::-1]"):
-            return False
+            return list_reversed
     raise Untranslatable(ob, "loop over potential_ctes not found")
 
 
@@ -479,6 +502,8 @@ def gen_joins(repo: str) -> str:
     o.append(f"def stringDisplayIsColumnPart : Bool := {str(d['displayColumnPart']).lower()}")
     o.append("")
     o.append("inductive Side | self | other deriving DecidableEq, Repr")
+    o.append("/-- whose display names (user spelling of a column name) the joined DataFrame keeps, in order of precedence -/")
+    o.append("def joinDisplayOrder : List Side := [" + ", ".join(d["displayOrder"]) + "]")
     o.append("/-- join types whose select list is built from one side only -/")
     o.append("def leftOnlyJoinTypes : List String := [" + ", ".join(lean_str(x) for x in d["leftOnly"]) + "]")
     o.append("def leftOnlyKeeps : List Side := [" + ", ".join(d["leftOnlyKeeps"]) + "]")
